@@ -2,7 +2,7 @@
 # Runs the pinned baseline suite (guard OFF, no shim) in REPO (default /repo) and compares with BASELINE.json stable_pass.
 REPO=${1:-/repo}
 OUT=$(mktemp /tmp/baseline.XXXXXX.xml)
-cd "$REPO" && env -u ROG_WORKS_TRANP_VERIF -u PYTHONPATH PYTHONDONTWRITEBYTECODE=1 /venv/bin/python -m pytest -ra -q -p no:cacheprovider --timeout=900 --continue-on-collection-errors --junitxml="$OUT" >/dev/null 2>&1
+rm -rf "$REPO/.cache"; cd "$REPO" && env -u ROG_WORKS_TRANP_VERIF -u PYTHONPATH PYTHONDONTWRITEBYTECODE=1 /venv/bin/python -m pytest -ra -q -p no:cacheprovider --timeout=900 --continue-on-collection-errors --junitxml="$OUT" >/dev/null 2>&1
 python3 - "$OUT" <<'PY'
 import json, sys, xml.etree.ElementTree as ET
 base = set(json.load(open('/root/.vp/BASELINE.json'))['stable_pass'])
